@@ -1,42 +1,18 @@
-"""C05 — see harness/props/sdl_ko.py (check_c05) for the oracle on the real StatefulDataLoader under the virtual
-scheduler; the Lean theorems and the trace-validation leg are listed in THEOREMS / run()."""
+"""C05 - oracle: harness/props/sdl_ko.py (check_c05) on the real StatefulDataLoader under the virtual scheduler;
+theorems and correspondence legs come from the SP / MP model parts."""
 from __future__ import annotations
 
-from typing import Tuple
+from . import _compose, sdl_ko
 
-from ..core import Ctx
-from . import sdl_ko
-
-THEOREMS: list = []
-LEAN_MODULES: list = []
-RULE = ""
-EXPLANATION = ""
+RULE = 'multi-worker configurations, each run under 4 schedule policies (random, adversarial timeouts, starved worker, starved/eager main, delayed queue flush): identical yields, identical state_dict() content at every position (dummy-sampler counters of iterable datasets excepted), identical continuation from two positions. Non-trivial: num_workers>=2; distinct by (configuration, policy set).'
+EXPLANATION = 'Lean: TDV.MP.deterministic / delta_at_yield / snapshot_fields over every action sequence of the protocol model. Tie: MP K-T leg (traces of the real iterator under the virtual scheduler accepted by the model). Oracle: same configuration under several schedules on the real code.'
 ASSUMPTIONS = ["worker processes are virtual processes under harness/vsched.py (real _worker_loop, deep-copied arguments, pickled queue payloads)"]
-KNOWN: dict = {}
-NQ, NT = 60, 1200
 
+PARTS = [_compose.ko_part("ko", sdl_ko.gen_c05, sdl_ko.check_c05, 80, 1500, known=None)]
 
-def extra_legs(ctx: Ctx):
+try:
+    from . import mp_parts
+    PARTS += mp_parts.parts("C05")
+except ImportError:
     pass
-
-
-def run(ctx: Ctx):
-    import torch
-    torch.set_num_threads(1)
-    jobs = sdl_ko.gen_c05(ctx, ctx.n(NQ, NT))
-    for j in jobs[:2]:
-        ctx.sample(j)
-    ctx.pmap(sdl_ko.check_c05, jobs)
-    extra_legs(ctx)
-
-
-def escalate(ctx: Ctx):
-    run(ctx)
-
-
-def replay(ctx: Ctx, payload) -> Tuple[bool, str]:
-    sub = Ctx(ctx.prop, ctx.tier, ctx.seed)
-    sdl_ko.check_c05(sub, payload["input"])
-    if sub.failures:
-        return False, sub.failures[0].what
-    return True, "property holds on this input"
+_compose.assemble(globals(), PARTS, RULE, EXPLANATION, ASSUMPTIONS)
